@@ -3,7 +3,7 @@
    Progress lemmas for every operation, in the order of the code; what each operation leaves behind is
    taken from the lemmas of Proofs/LoadCtrl.v / LoadFill.v / LoadLoop.v. *)
 From Coq Require Import ZArith List Bool Lia.
-Require Import Rig.Generated.GenRegions Rig.Generated.GenLoad Rig.Model.Base Rig.Model.Regions Rig.Spec.Regions.
+Require Import Rig.Generated.GenRegions Rig.Generated.GenLoad Rig.Generated.GenLoadShape Rig.Model.Base Rig.Model.Regions Rig.Spec.Regions.
 Require Import Rig.Model.Load Rig.Spec.Load.
 Require Import Rig.Proofs.Regions Rig.Proofs.RegionsOrder Rig.Proofs.LoadBits Rig.Proofs.LoadMachine Rig.Proofs.LoadCtrl
                Rig.Proofs.LoadFill Rig.Proofs.LoadCount Rig.Proofs.LoadLoop Rig.Proofs.LoadPack.
@@ -403,7 +403,7 @@ Qed.
 (* ---------------------------------------------------------------- count, start *)
 Lemma count_progress : forall w aid, alive (w_m w) -> 0 <= aid < 256 -> exists w' n, count_cores_wait w aid = Ok (w', n).
 Proof.
-  intros w aid Ha Haid. unfold count_cores_wait.
+  intros w aid Ha Haid. unfold count_cores_wait. change load_count_state with AppState_wait.
   destruct (send_progress w (mkPkt count_x count_y count_p count_cmd count_arg1 (count_arg2 AppState_wait aid) count_arg3 []))
     as (w1 & r & Hs).
   - apply packable_bcast; [vm_compute; split; congruence|apply closed_words|apply count_word; exact Haid|apply closed_words].
@@ -415,7 +415,7 @@ Qed.
 
 Lemma start_progress : forall w aid, alive (w_m w) -> 0 <= aid < 256 -> exists w', send_signal_start w aid = Ok w'.
 Proof.
-  intros w aid Ha Haid. unfold send_signal_start.
+  intros w aid Ha Haid. unfold send_signal_start. change load_start_signal with AppSignal_start.
   destruct (send__progress w (mkPkt signal_x signal_y signal_p signal_cmd (signal_arg1 signal_type_start)
                                     (signal_arg2 AppSignal_start aid) signal_arg3 [])) as (w1 & Hs & _).
   - apply packable_bcast; [vm_compute; split; congruence|apply closed_words|apply sig_word; exact Haid|apply closed_words].
@@ -435,7 +435,7 @@ Proof.
   cbn [load_loop]. destruct (negb (is_empty unl) && load_continue tries (a_tries a)) eqn:Econt.
   2:{ eexists _, _, _, _. split; [reflexivity|exact G]. }
   apply andb_prop in Econt. destruct Econt as [_ Et]. unfold load_continue in Et. apply Z.leb_le in Et.
-  destruct (flood_fill_aplx_progress bins am m0 (a_app a) true unl c w Hmap Hbins Hpres Haid G) as (c1 & w1 & Hff & G1).
+  destruct (flood_fill_aplx_progress bins am m0 (a_app a) load_fill_wait unl c w Hmap Hbins Hpres Haid G) as (c1 & w1 & Hff & G1).
   rewrite Hff. cbn [bind fst snd].
   assert (Hnext : forall c2 w2 unl1 atts1, going bins am m0 c2 (w_m w2) unl1 ->
             exists c' w' unl' atts', load_loop k bins a total c2 w2 unl1 (load_next_tries tries) atts1 = Ok (c', w', unl', atts')
